@@ -212,6 +212,22 @@ func (mo *monitor) judgeWith(c *Case, witness func() any, pi int, transport stri
 	r.Max("reply_len_max", int64(len(reply)))
 	qf := rc.Facts(query)
 	shape := fmt.Sprintf("%s|%s|opt=%v do=%v cd=%v ad=%v nopt=%d", tr, class, qf.HasOPT, qf.DO, qf.CD, qf.AD, len(qf.Options))
+	// queries carrying options the server has no rule for, by the reply class
+	// that answered them (the "foreign options never reflected" clause is only
+	// exercised by a reply to such a query)
+	nForeign := 0
+	for _, qo := range qf.Options {
+		if !knownClientOption(qo.Option()) {
+			nForeign++
+			r.DistinctIn("foreign_opt_codes", fmt.Sprintf("%d", qo.Option()))
+		}
+	}
+	if nForeign > 0 {
+		r.Count("foreign-opt/"+class, 1)
+		r.Count("foreign-opt/transport/"+tr, 1)
+		r.DistinctIn("foreign_opt_shapes", fmt.Sprintf("%s|%s|%s", strings.SplitN(c.Kind, "/", 2)[0], tr, class))
+		shape += fmt.Sprintf(" foreign=%d", nForeign)
+	}
 	r.DistinctIn("shapes", shape)
 	r.Distinct(fmt.Sprintf("%s|%s|%d|%s", c.Kind, shape, len(reply)/256, desc))
 	if tr == "udp" && len(reply) > 0 {
@@ -624,15 +640,23 @@ func genCookieCase(rng *rand.Rand, idx, ci int) *Case {
 			ck = append(ck, randBytes(rng, 8+rng.IntN(25))...) // stale server half
 		}
 		q.Opts = append(q.Opts, OptSpec{dns.EDNS0COOKIE, hex.EncodeToString(ck)})
-		switch rng.IntN(4) {
+		switch rng.IntN(7) {
 		case 0:
 		case 1:
 			q.Opts = append(q.Opts, ecsOption(rng, 0))
 		case 2:
 			q.Opts = append(q.Opts, OptSpec{dns.EDNS0PADDING, hex.EncodeToString(append([]byte("C"), randBytes(rng, 9)...))})
-		default:
+		case 3:
 			q.Opts = append(q.Opts, ecsOption(rng, 0), OptSpec{dns.EDNS0NSID, ""},
 				OptSpec{dns.EDNS0PADDING, hex.EncodeToString(append([]byte("C"), randBytes(rng, 5)...))})
+		case 4: // options the server has no rule for (LLQ, EXPIRE, DAU, unknown codes, …)
+			q.Opts = append(q.Opts, foreignOptions(rng)...)
+		case 5:
+			q.Opts = append(q.Opts, foreignOptions(rng)...)
+			q.Opts = append(q.Opts, ecsOption(rng, 0))
+		default: // … next to every option it does have a rule for
+			q.Opts = append(q.Opts, foreignOptions(rng)...)
+			q.Opts = append(q.Opts, clientOptionsExcept(rng, false, dns.EDNS0COOKIE)...)
 		}
 		rng.Shuffle(len(q.Opts), func(a, b int) { q.Opts[a], q.Opts[b] = q.Opts[b], q.Opts[a] })
 		p.Q = q
@@ -871,6 +895,19 @@ func main() {
 		"badvers": 60, "badcookie": 30, "bare-formerr": 100, "bare-notimp": 100,
 	} {
 		r.Require("class/"+cls, min)
+	}
+	// queries with options outside COOKIE/NSID/ECS/keepalive/padding, per reply
+	// class written by a different piece of code: the edns writer (answers,
+	// negative, failures, truncation), and the rcode-only replies written
+	// outside it (BADVERS; BADCOOKIE ahead of the edns middleware)
+	for cls, min := range map[string]int64{
+		"noerror-answer": 500, "noerror-nodata": 80, "nxdomain": 150, "servfail": 100, "truncated": 100,
+		"badvers": 24, "badcookie": 60,
+	} {
+		r.Require("foreign-opt/"+cls, min)
+	}
+	for _, tr := range []string{"udp", "tcp", "dot", "doh", "doq"} {
+		r.Require("foreign-opt/transport/"+tr, 80)
 	}
 	r.Require("udp_replies_over_512", 100)
 	r.Require("noreply/udp", 10)            // QR=1 / denied / rate-limited packets went unanswered
